@@ -442,6 +442,13 @@ def _more_dimensions(cfg, rng, force):
         if rng.random() < 0.2: f["sr_inhb"] = True
         if rng.random() < 0.4: f.update(curve_number_adj=True, curve_number_adj_pct=rng.choice([-20, -5, 10]))
         cfg["fallow_field"] = f or None
+    g = cfg.get("gw")
+    if g and g.get("method") == "Variable" and len(g.get("dates", [])) >= 2 and rng.random() < 0.4:
+        # a SLOWLY drifting table (well under 1 mm per day) that nevertheless travels decimetres over the run: across compartment centres,
+        # into or out of the profile, past the depth beyond which field capacity is no longer adjusted
+        base = rng.choice([0.6, 1.0, 1.45, 1.75, 2.2, 2.95]); rate = rng.choice([-1, 1]) * rng.choice([0.0004, 0.0007, 0.00095])
+        d0 = pd.Timestamp(g["dates"][0])
+        g["values"] = [round(max(0.3, base + rate * (pd.Timestamp(d) - d0).days), 4) for d in g["dates"]]
     for key in ("field", "fallow_field"):
         if key in force or rng.random() >= 0.2:
             continue
